@@ -780,4 +780,55 @@ theorem mem_slice_internal (a : Annotation) (s e : Int) (d : List (Int × List M
   · rintro ⟨k, hmem, h1, h2, rfl⟩
     exact ⟨(k, m), hmem, by simp [h1, h2]⟩
 
+/-! ### the number of strictly internal spans -/
+
+theorem nodup_internalSpans (n : Int) : (internalSpans n).Nodup := by
+  have h := nodup_internalProj n
+  exact (List.pairwise_map.1 h).imp (fun hne heq => hne (by rw [heq]))
+
+theorem internalSpans_step (n : Nat) (hn : 1 ≤ n) :
+    (internalSpans ((n + 1 : Nat) : Int)).length = (internalSpans (n : Int)).length + (n - 1) := by
+  let extra : List Span := (List.range (n - 1)).map fun (k : Nat) => ((k : Int) + 1, (n : Int), (0 : Int))
+  have hextra : extra.Nodup :=
+    nodup_map_of_inj List.nodup_range (fun a _ b _ h => by simp only [Prod.mk.injEq] at h; omega)
+  have hL : (internalSpans (n : Int) ++ extra).Nodup := by
+    rw [List.nodup_append]
+    refine ⟨nodup_internalSpans _, hextra, ?_⟩
+    rintro ⟨s, e, v⟩ h1 ⟨s', e', v'⟩ h2 heq
+    have := (mem_internalSpans _ _ _ _).1 h1
+    simp only [extra, List.mem_map, List.mem_range, Prod.mk.injEq] at h2
+    obtain ⟨k, _, _, rfl, _⟩ := h2
+    simp only [Prod.mk.injEq] at heq
+    omega
+  have hperm : (internalSpans ((n + 1 : Nat) : Int)).Perm (internalSpans (n : Int) ++ extra) := by
+    rw [List.perm_ext_iff_of_nodup (nodup_internalSpans _) hL]
+    rintro ⟨s, e, v⟩
+    rw [List.mem_append, mem_internalSpans, mem_internalSpans]
+    simp only [extra, List.mem_map, List.mem_range, Prod.mk.injEq]
+    constructor
+    · rintro ⟨h1, h2, h3, rfl⟩
+      by_cases he : e < (n : Int)
+      · exact Or.inl ⟨h1, h2, he, rfl⟩
+      · exact Or.inr ⟨(s - 1).toNat, by omega, by omega, by omega, rfl⟩
+    · rintro (⟨h1, h2, h3, rfl⟩ | ⟨k, hk, rfl, rfl, rfl⟩)
+      · exact ⟨h1, h2, by omega, rfl⟩
+      · exact ⟨by omega, by omega, by omega, rfl⟩
+  rw [hperm.length_eq, List.length_append]
+  simp [extra]
+
+theorem internalSpans_count (n : Nat) : 2 * (internalSpans (n : Int)).length = (n - 1) * (n - 2) := by
+  induction n with
+  | zero => decide
+  | succ n ih =>
+    cases n with
+    | zero => decide
+    | succ m =>
+      rw [internalSpans_step (m + 1) (by omega), Nat.mul_add, ih]
+      show (m + 1 - 1) * (m + 1 - 2) + 2 * (m + 1 - 1) = (m + 1 + 1 - 1) * (m + 1 + 1 - 2)
+      cases m with
+      | zero => rfl
+      | succ k =>
+        simp only [Nat.add_one_sub_one]
+        grind
+
 end Fragment
